@@ -128,6 +128,17 @@ func (g *keyGen) next() []byte {
 	}
 }
 
+// drawWidth: ordinary terminals, and in size sweeps now and then one that is only a few columns
+// wide (a tiling window manager squeezing the window, a pane being dragged shut).
+func drawWidth(r *Run, o uiOpts) int {
+	t := r.W
+	if o.sizes && t.Chance(1, 6) {
+		r.S.Probe("ui_narrow_terminal")
+		return 1 + t.Draw(11)
+	}
+	return 12 + t.Draw(109)
+}
+
 func scenUI(r *Run, o uiOpts) {
 	t := r.W
 	// some racing towns carry strings that the scrubber really alters (tabs, escapes): code that
@@ -135,7 +146,7 @@ func scenUI(r *Run, o uiOpts) {
 	tn := buildTown(r, TownOpts{Hostile: o.hostile || (o.racing && t.Chance(1, 3)), RichLinks: o.rich || (o.racing && t.Chance(1, 3)), Paged: o.paged, Markdown: o.racing})
 	w, h := 80, 24
 	if o.sizes || t.Chance(1, 3) {
-		w, h = 12+t.Draw(109), 2+t.Draw(39)
+		w, h = drawWidth(r, o), 2+t.Draw(39)
 	}
 	u := newUISession(r, w, h)
 	u.racing = o.racing
@@ -264,7 +275,7 @@ func scenUI(r *Run, o uiOpts) {
 			}
 			advance()
 			if t.Chance(1, 6) || (o.sizes && t.Chance(1, 2)) {
-				u.Resize(12+t.Draw(109), 2+t.Draw(39))
+				u.Resize(drawWidth(r, o), 2+t.Draw(39))
 			}
 		}
 		for busy() && r.S.Steps() < stepCap {
@@ -304,7 +315,7 @@ func scenUI(r *Run, o uiOpts) {
 			}
 		}
 		if o.sizes || t.Chance(1, 8) {
-			nw, nh := 12+t.Draw(109), 2+t.Draw(39)
+			nw, nh := drawWidth(r, o), 2+t.Draw(39)
 			if t.Chance(1, 3) {
 				nh = []int{2, 3, 4, 5}[t.Draw(4)]
 			}
@@ -413,8 +424,12 @@ func checkHookRecords(r *Run, u *UISession, tn *Town) {
 		return out
 	}
 	add := func(l TLink) {
-		// (JSON strings lose their control characters on extraction, before the type is parsed)
+		// (JSON strings lose their control characters on extraction, before the type is parsed;
+		// line breaks and tabs stay white space, which ends the subtype like any other separator)
 		mimeText := strings.Map(func(c rune) rune {
+			if c == '\n' || c == '\t' {
+				return ' '
+			}
 			if c < 0x20 || c == 0x7f || (c >= 0x80 && c <= 0x9f) {
 				return -1
 			}
